@@ -176,22 +176,44 @@ def _save_replay(ctx, name, payload):
     return path
 
 
-def _search_failure(mod, ctx, suspects, all_cases):
-    """Look for a concrete input on which the property itself fails on the implementation."""
+def _search_failure(mod, ctx, suspects, all_cases, known_sigs=()):
+    """Look for a concrete input on which the property itself fails on the implementation.
+
+    A failure whose signature is a known finding is only kept as a fallback: the search goes on (for a bounded number
+    of further cases) for a failure that is NOT a known finding, so that known findings cannot hide a new one.
+    Shrinking keeps the signature of the failure it started from."""
     seen = set()
     queue = list(suspects) + list(all_cases)
     tried = 0
+    has_sig = hasattr(mod, "signature")
+    fallback, budget = None, None
+
+    def sig_of(i, f):
+        try:
+            return mod.signature(i, f) if has_sig else None
+        except Exception:
+            return None
+
     for inp in queue:
         key = sx.to_text(inp)
         if key in seen:
             continue
         seen.add(key)
         tried += 1
+        if budget is not None:
+            budget -= 1
+            if budget < 0:
+                break
         try:
             fail = mod.oracle(inp)
         except Exception:
             fail = "oracle crashed: " + traceback.format_exc(limit=3)
         if fail:
+            sig0 = sig_of(inp, fail)
+            if sig0 is not None and sig0 in known_sigs:
+                if fallback is None:
+                    fallback, budget = (inp, fail), int(getattr(mod, "SEARCH_BUDGET_AFTER_KNOWN", 6000))
+                continue
             # shrink
             best, best_fail = inp, fail
             if hasattr(mod, "shrink"):
@@ -205,10 +227,12 @@ def _search_failure(mod, ctx, suspects, all_cases):
                             f2 = mod.oracle(cand)
                         except Exception:
                             f2 = None
-                        if f2:
+                        if f2 and (not has_sig or sig_of(cand, f2) == sig0):
                             best, best_fail, improved = cand, f2, True
                             break
             return best, best_fail, tried
+    if fallback is not None:
+        return fallback[0], fallback[1], tried
     return None, None, tried
 
 
@@ -332,7 +356,7 @@ def run(pid, tier="quick", replay=None):
 
     # ---- verdict
     if ctx.problems or replay:
-        inp, fail, tried = _search_failure(mod, ctx, suspects, [c["input"] for c in cases])
+        inp, fail, tried = _search_failure(mod, ctx, suspects, [c["input"] for c in cases], known_sigs)
         cov["failure_search_tried"] = tried
         if inp is not None:
             sig = mod.signature(inp, fail) if hasattr(mod, "signature") else None
